@@ -945,6 +945,7 @@ func (x *Exec) decAtomExp(s *smt.Term) *smt.Term {
 	}
 	return e
 }
+
 // decAtomParts: sign and magnitude of an opaque decimal string. The magnitude is defined
 // from an integer coefficient and the exponent, |v| = dec_coeff(s) * 10^dec_exp(s), so that
 // integrality questions stay in integer arithmetic.
